@@ -68,7 +68,7 @@ func (P *Program) newMachine(h *HarnessSpec, opts RunOpts, solverKind string) (*
 
 func (P *Program) configFor(h *HarnessSpec, tier string) Config {
 	c := Config{MaxDecisions: 3000, MaxSteps: 5_000_000, MaxCallDepth: 3000, MaxSlice: 64, MaxStr: 24,
-		MaxPreempt: 2, MapOrderAny: h.MapOrderAny, DeadlockOK: h.DeadlockOK, NoopPkgs: P.Suite.NoopPackages}
+		MaxPreempt: 2, MapOrderAny: h.MapOrderAny, DeadlockOK: h.DeadlockOK, VirtualAfterFunc: h.VirtualAfterFunc, NoopPkgs: P.Suite.NoopPackages}
 	if v, ok := h.MaxPreempt[tier]; ok {
 		c.MaxPreempt = v
 	}
